@@ -62,6 +62,11 @@ func entryGuard(f *ssa.Function) *ssa.Defer {
 			// another defer (e.g. wg.Done): registering it cannot panic
 		case *ssa.Alloc, *ssa.Store, *ssa.MakeClosure, *ssa.FieldAddr, *ssa.DebugRef, *ssa.UnOp, *ssa.Phi, *ssa.Convert, *ssa.ChangeType, *ssa.IndexAddr, *ssa.Slice, *ssa.BinOp, *ssa.MakeInterface:
 			// loads of fields of the receiver can fault on a nil receiver only; tasks are built by the parent
+		case *ssa.Call:
+			// a call that can neither panic nor do anything (trace hook) does not delay the guard
+			if !trivialFn(x.Call.StaticCallee(), 0) {
+				return nil
+			}
 		default:
 			return nil
 		}
